@@ -420,7 +420,9 @@ class Parser:
     def getJunk(self, ctx, offset, *expressions):
         junkend = None
         for exp in expressions:
-            m = exp.search(ctx.contents, offset)
+            # Junk is at least one character long. If the entry at offset
+            # was rejected (BadEntity), don't end the junk right there.
+            m = exp.search(ctx.contents, offset + 1)
             if m:
                 junkend = min(junkend, m.start()) if junkend else m.start()
         return Junk(ctx, (offset, junkend or len(ctx.contents)))
